@@ -390,8 +390,10 @@ class World:
             f2, b2 = r2[1]
             if ucd(b2) != b or ((exact or finite(f2)) and not close(f2, 1, exact)):
                 self.fail("base-units:idempotence", f"{b} under {sysname} -> {f2} {ucd(b2)}")
-        else:
+        elif exact or r2[1] not in ("XValue", "XOther"):
             self.fail("base-units:idempotence", f"{b} under {sysname} raises {r2[1]}")
+        else:
+            self.count("float-range")
 
     def check_cached(self, d, sysname, res):
         """the answer that may come from the cache must be the cache-free answer"""
@@ -621,9 +623,15 @@ class World:
                         self.count("float-range")
                         return
                     back = self.call(u.Quantity(r[1], mkuc(u, r[2])).to, mkuc(u, d))
+                    if back[0] == "err" and not exact and back[1] in ("XValue", "XOther"):
+                        self.count("float-range")      # inf / nan inside the float conversion
+                        return
                     if back[0] != "ok" or not close(back[1].magnitude, m, exact):
                         self.fail("to-base-units:value", f"{m} {d} -> {r[1]} {r[2]} converts back to {back[1].magnitude if back[0] == 'ok' else back[1]}")
                     again = self.call(u._get_base_units, mkuc(u, r[2]), False, eff)       # cache-free
+                    if again[0] == "err" and not exact and again[1] in ("XValue", "XOther"):
+                        self.count("float-range")
+                        return
                     if again[0] != "ok" or ucd(again[1][1]) != r[2] or not close(again[1][0], 1, exact):
                         self.fail("to-base-units:idempotence", f"{r[1]} {r[2]} is not a fixed point of to_base_units")
             elif not (r[1] == "XDim" and eff in u._systems and self.rule_broken(eff)) and r[1] != "XUndef":
@@ -1068,8 +1076,8 @@ def run(ck):
                 w.apply(["set_default", sysname])
             w.apply(["base", jd({n: F(1)}), True, None])
             if n in positive:
-                # quick tier: the quantity-level step for every third unit, rotating with the system
-                if thorough or (i + SYSTEMS.index(sysname)) % 3 == 0:
+                # quick tier: the quantity-level step for every fourth unit, rotating with the system
+                if thorough or (i + SYSTEMS.index(sysname)) % 4 == 0:
                     w.apply(["to_base", str(F(rng.randint(1, 60), rng.choice([1, 1, 2, 3, 8]))), jd({n: F(1)})])
             elif not ureg._units[n].is_logarithmic:
                 # offset units: quantity-level oracles only (the offset calculus is C06's)
@@ -1108,7 +1116,7 @@ def run(ck):
     for s in [x for x in SYSTEMS if x]:
         # every canonical name for the systems that have variants (imperial_*, US_*); a sample elsewhere in the quick tier
         full = thorough or s in ("imperial", "US")
-        items = (list(canon) if full else rng.sample(canon, 60)) + rng.sample(spell, 80 if thorough else 25) \
+        items = (list(canon) if full else rng.sample(canon, 40)) + rng.sample(spell, 80 if thorough else 20) \
             + ["zork", "_private", "x__", "kilometer", "millipint", "dimensionless", "pint", "ton", "gallon", "hundredweight"]
         w = World(ureg, fails, f"attr:{s}")
         w.canon, w.universe = w0.canon, w0.universe
@@ -1134,7 +1142,7 @@ def run(ck):
         w = World(ureg, fails, f"compound:{sysname}")
         w.canon, w.universe = w0.canon, w0.universe
         w.apply(["set_default", sysname])
-        for _ in range(120 if thorough else 25):
+        for _ in range(120 if thorough else 16):
             d = rnd_units(rng, pool)
             if not d:
                 continue
@@ -1238,6 +1246,7 @@ def replay(ck, path):
         print(json.dumps(rp, indent=1, default=str))
         return 0
     fails = []
+    unlisted = 0
     tmp = None
     if rp.get("registry", "default") == "default":
         u = registry()
@@ -1254,8 +1263,11 @@ def replay(ck, path):
             w.apply(op)
             print("step", op, "->", w.terms[-1][:200])
             for k, d, _ in fails[n:]:
-                print("   ORACLE FAILS:", k, "-", d)
+                kn = ck._match_known(k)
+                if kn is None:
+                    unlisted += 1
+                print("   ORACLE FAILS" + (f" (known finding {kn['id']})" if kn else " (VIOLATION)") + ":", k, "-", d)
     finally:
         if tmp is not None:
             os.unlink(tmp.name)
-    return 1 if fails else 0
+    return 1 if unlisted else 0
